@@ -374,6 +374,7 @@ def _discount_matrix(ctx: Ctx, tdr):
             raise AnalysisError("C18: time_distributed_return no longer branches on batch_first")
         rd = ReachingDefs(node)
         time_axis = 1 if bf else 0
+        ratio = []
 
         def ev(e, depth=0):
             if depth > 20:
@@ -393,13 +394,26 @@ def _discount_matrix(ctx: Ctx, tdr):
                     return ("index", n.args[0].value)
                 if cn == "torch.pow" and len(e.args) == 2 and u(e.args[0]) == gname:
                     v = ev(e.args[1], depth + 1)
+                    if v[0] == "imat":
+                        return ("mat", v[1], v[2], None, v[3])
                     if v[0] != "index":
                         raise Undecided("pow of a non-index")
                     return ("vec", 1, v[1])
                 if isinstance(e.func, ast.Attribute):
                     m = e.func.attr
+                    if m in ("clamp_min", "clamp_min_", "clamp") and e.args and u(e.args[0]) == "0":
+                        v = ev(e.func.value, depth + 1)
+                        if v[0] == "imat":
+                            return v  # negative exponents only occur on the discarded triangle
+                        raise Undecided("clamp of a non-exponent")
                     if m == "unsqueeze" and len(e.args) == 1 and isinstance(e.args[0], ast.Constant):
                         v = ev(e.func.value, depth + 1)
+                        if v[0] == "index":
+                            if e.args[0].value in (1, -1):
+                                return ("imat", 1, 0, v[1])
+                            if e.args[0].value in (0, -2):
+                                return ("imat", 0, 1, v[1])
+                            raise Undecided("unsqueeze axis")
                         if v[0] != "vec":
                             raise Undecided("unsqueeze of a non-vector")
                         if e.args[0].value in (1, -1):
@@ -414,12 +428,21 @@ def _discount_matrix(ctx: Ctx, tdr):
                         return ("mat", v[1], v[2], "i>=j" if m == "tril" else "i<=j", v[4])
                     if m in ("to", "contiguous", "clone"):
                         return ev(e.func.value, depth + 1)
+            if isinstance(e, ast.BinOp) and isinstance(e.op, (ast.Sub, ast.Add)):
+                a, b = ev(e.left, depth + 1), ev(e.right, depth + 1)
+                if a[0] == "imat" and b[0] == "imat" and a[3] == b[3]:
+                    sg = -1 if isinstance(e.op, ast.Sub) else 1
+                    return ("imat", a[1] + sg * b[1], a[2] + sg * b[2], a[3])
+                raise Undecided("sum of non-exponents")
             if isinstance(e, ast.BinOp) and isinstance(e.op, ast.Pow) and u(e.left) == gname:
                 v = ev(e.right, depth + 1)
-                if v[0] != "index":
-                    raise Undecided("power of a non-index")
-                return ("vec", 1, v[1])
+                if v[0] == "imat":
+                    return ("mat", v[1], v[2], None, v[3])
+                if v[0] == "index":
+                    return ("vec", 1, v[1])
+                raise Undecided("power of a non-index")
             if isinstance(e, ast.BinOp) and isinstance(e.op, (ast.Div, ast.Mult)):
+                ratio.append(u(e)[:70])
                 a, b = ev(e.left, depth + 1), ev(e.right, depth + 1)
                 if a[0] != "mat" or b[0] != "mat" or a[3] or b[3] or a[4] != b[4]:
                     raise Undecided("ratio of non-matrices")
@@ -456,6 +479,10 @@ def _discount_matrix(ctx: Ctx, tdr):
         contracted = 1 if r_first else 0
         want = (1, -1, "i>=j") if r_first else (-1, 1, "i<=j")
         ok = (ci, cj, keep) == want and contracted == time_axis and axis == time_axis
+        col.ob("G12", "S3", f"_rl.py::time_distributed_return::exponent-difference-formed-in-the-exponent[batch_first={bf}]", not ratio,
+               f"the discount gamma^(t' - t) is computed as a ratio / product of powers `{ratio[0] if ratio else ''}`: once gamma^t "
+               f"underflows to 0 (gamma < 1) or overflows (gamma > 1) the entries are 0/0 or inf/inf = NaN and the matmul spreads "
+               f"it - e.g. float32, gamma = 0.5, T = 200 gives 50 NaN returns; pow(gamma, t' - t) is exact", "_rl.py", rets[0].lineno)
         col.ob("G12", "S3", key, ok,
                f"with batch_first={bf} the return is {'matmul(r, D)' if r_first else 'matmul(D, r)'} with D[i, j] = "
                f"gamma^({ci}*i + {cj}*j) kept where {keep}, D sized by axis {axis} and contracted over axis {contracted} of r; "
@@ -560,11 +587,12 @@ def _mutants():
         M("module-drops-eps", F, "return mean_var_norm(x, self.dim, self.mean, self.std, self.eps)", "return mean_var_norm(x, self.dim, self.mean, self.std)", "G5/S2"),
         M("cli-bessel-unread", C, "mvn.store(bessel=options.bessel)", "mvn.store()", "G"),
         M("gamma0-copy", R, "if not gamma:\n        return r", "if not gamma:\n        return r.clone()", "gamma==0-returns-r"),
-        M("layout-asymmetry", R, "discount = (discount.unsqueeze(0) / discount.unsqueeze(1)).triu()", "discount = (discount.unsqueeze(0) / discount.unsqueeze(1)).tril()", "discount-matrix[batch_first=False]"),
-        M("both-layouts-discount-the-past", R, "(discount.unsqueeze(1) / discount.unsqueeze(0)).tril()", "(discount.unsqueeze(0) / discount.unsqueeze(1)).tril()", "discount-matrix[batch_first=True]"),
+        M("layout-asymmetry", R, "discount = torch.pow(gamma, exp).triu()", "discount = torch.pow(gamma, exp).tril()", "discount-matrix[batch_first=False]"),
+        M("both-layouts-discount-the-past", R, "exp = (exp.unsqueeze(1) - exp.unsqueeze(0)).clamp_min(0)", "exp = (exp.unsqueeze(0) - exp.unsqueeze(1)).clamp_min(0)", "discount-matrix[batch_first=True]"),
         M("time-extent-from-batch-axis", R, "exp = torch.arange(r.size(1), device=r.device, dtype=r.dtype)", "exp = torch.arange(r.size(0), device=r.device, dtype=r.dtype)", "discount-matrix[batch_first=True]"),
         M("operands-swapped", R, "R = torch.matmul(discount, r)", "R = torch.matmul(r, discount)", "discount-matrix[batch_first=False]"),
-        M("twin:power-operator", R, "discount = torch.pow(gamma, exp)", "discount = gamma ** exp", "", -1, twin=True),
+        M("ratio-of-powers", R, "exp = (exp.unsqueeze(0) - exp.unsqueeze(1)).clamp_min(0)\n        discount = torch.pow(gamma, exp).triu()", "discount = torch.pow(gamma, exp)\n        discount = (discount.unsqueeze(0) / discount.unsqueeze(1)).triu()", "exponent-difference-formed-in-the-exponent"),
+        M("twin:power-operator", R, "discount = torch.pow(gamma, exp).tril()", "discount = (gamma ** exp).tril()", "", twin=True),
         M("twin:rename-last-filt", F, "last_filt", "prev_filt", "", -1, twin=True),
     ]
 
